@@ -141,7 +141,9 @@ func allEntryPoints(sql string) []epResult {
 			return f(parser.NewParser(), toks)
 		})
 	}
-	low("Parser.Parse", func(p *parser.Parser, toks []models.TokenWithSpan) (*ast.AST, error) { return p.ParseFromModelTokens(toks) })
+	low("Parser.Parse", func(p *parser.Parser, toks []models.TokenWithSpan) (*ast.AST, error) {
+		return p.ParseFromModelTokens(toks)
+	})
 	low("Parser.ParseContext", func(p *parser.Parser, toks []models.TokenWithSpan) (*ast.AST, error) {
 		return p.ParseContextFromModelTokens(context.Background(), toks)
 	})
@@ -155,24 +157,24 @@ func allEntryPoints(sql string) []epResult {
 // start position what parseStatement does from there (the statement parser `ps` the Coq loop models are
 // parametric in).
 type loopTable struct {
-	SQL      string    `json:"sql"`
-	TokErr   string    `json:"tok_err,omitempty"`
-	NTok     int       `json:"ntok"`
-	Kinds    string    `json:"kinds"` // one char per token: E eof, S semicolon, K statement-starting keyword, . other
-	PS       []psEntry `json:"ps"`
-	Sync     []int     `json:"sync"` // synchronize() from each position
-	Entries  []epResult `json:"entries"`
-	Strict   epResult  `json:"strict_parse"`
-	StrictCtx epResult `json:"strict_ctx"`
-	StrictPos epResult `json:"strict_pos"`
+	SQL       string     `json:"sql"`
+	TokErr    string     `json:"tok_err,omitempty"`
+	NTok      int        `json:"ntok"`
+	Kinds     string     `json:"kinds"` // one char per token: E eof, S semicolon, K statement-starting keyword, . other
+	PS        []psEntry  `json:"ps"`
+	Sync      []int      `json:"sync"` // synchronize() from each position
+	Entries   []epResult `json:"entries"`
+	Strict    epResult   `json:"strict_parse"`
+	StrictCtx epResult   `json:"strict_ctx"`
+	StrictPos epResult   `json:"strict_pos"`
 }
 
 type psEntry struct {
-	OK   bool   `json:"ok"`
-	End  int    `json:"end"`
-	Code string `json:"code,omitempty"`
-	Tree string `json:"tree,omitempty"`
-	Depth int   `json:"depth_after"`
+	OK    bool   `json:"ok"`
+	End   int    `json:"end"`
+	Code  string `json:"code,omitempty"`
+	Tree  string `json:"tree,omitempty"`
+	Depth int    `json:"depth_after"`
 	Panic string `json:"panic,omitempty"`
 }
 
@@ -364,7 +366,9 @@ func init() {
 		sc.Buffer(make([]byte, 1<<20), 64<<20)
 		for sc.Scan() {
 			var in struct {
-				Segs []string `json:"segs"`
+				Segs   []string `json:"segs"`
+				Prefix string   `json:"prefix"` // white space in front of the first segment
+				Seps   []string `json:"seps"`   // separator after segment i (white space around exactly one ';'); default ";\n"
 			}
 			if json.Unmarshal(sc.Bytes(), &in) != nil {
 				continue
@@ -376,7 +380,8 @@ func init() {
 				NTok     int      `json:"ntok"` // converted tokens without EOF; -1 if the segment does not tokenize
 			}
 			var segs []segRes
-			whole := ""
+			var spans [][2]int // rune offsets [start, end) of each segment's text in whole
+			whole := in.Prefix
 			for i, s := range in.Segs {
 				a, err := gosqlx.Parse(s)
 				sr := segRes{Accepted: err == nil, Code: infoOf(err).Code, Trees: astHashes(a), NTok: -1}
@@ -392,15 +397,21 @@ func init() {
 				}
 				segs = append(segs, sr)
 				if i > 0 {
-					whole += ";\n"
+					sep := ";\n"
+					if i-1 < len(in.Seps) {
+						sep = in.Seps[i-1]
+					}
+					whole += sep
 				}
+				st := len([]rune(whole))
 				whole += s
+				spans = append(spans, [2]int{st, len([]rune(whole))})
 			}
 			var stmts []ast.Statement
 			var errs []error
 			pn := guarded(func() { stmts, errs = gosqlx.ParseWithRecovery(whole) })
 			wa, werr := gosqlx.Parse(whole)
-			emitJSON(map[string]interface{}{"segs": in.Segs, "seg_results": segs, "whole": whole,
+			emitJSON(map[string]interface{}{"segs": in.Segs, "seg_results": segs, "whole": whole, "spans": spans, "prefix": in.Prefix, "seps": in.Seps,
 				"rec_trees": stmtHashes(stmts), "rec_errs": recErrsOf(errs), "rec_panic": pn,
 				"strict_ok": werr == nil, "strict_code": infoOf(werr).Code, "strict_trees": astHashes(wa)})
 		}
